@@ -21,7 +21,7 @@ class C08(Check):
     id = 'C08'
     module = 'Xrl.Props.C08'
     namespace = 'Xrl.C08'
-    extra_modules = [('Xrl.Props.C08%s' % x, 'Xrl.C08') for x in 'bcdefg']
+    extra_modules = [('Xrl.Props.C08%s' % x, 'Xrl.C08') for x in 'bcdefgh']
     functions = CONSTF + ['CS_FluorShell_Kissel_%s' % v for v in VAR] + ['CS_FluorLine_Kissel_%s' % v for v in VAR]
     assumptions = ['the Kissel photo-ionisation table is EMPTY in this tree (data/kissel_pe.dat): in the shipped configuration every Kissel call must fail cleanly; '
                    'the code is exercised with values in a second configuration whose Kissel table is synthetic (tools/synth_kissel.py: well-formed, not physical)',
@@ -159,7 +159,7 @@ class C08(Check):
         # (2) regenerated configurations (real Kissel from data/kissel, and a synthetic stress table): model vs
         #     implementation, and the cascade oracle
         kl = self.kissel_lines(ctx)
-        nontriv = 0; per_cfg = {}
+        nontriv = 0; per_cfg = {}; hyp_exec = {}
         for kind in ('real', 'synth'):
             suf = ctx.build_kissel_config(kind)
             ck = ctx.run_c(kl, exe=ctx.sc.path('cdrv' + suf))
@@ -172,6 +172,17 @@ class C08(Check):
             except core.BuildError:
                 pass
             ntot += len(kl)
+            # the data hypotheses of C08h.ownOK_of_shape (KisselShaped, WeightDefined), executed on the tables of THIS configuration
+            try:
+                sh2 = ctx.run_model(['spec.shapeFailures2', 'spec.weightFailures'], dump='dump' + suf)
+                for o, nm in zip(sh2, ('shapeFailures2', 'weightFailures')):
+                    bad = [x for x in o[len('shape ['):-1].split(', ') if x and (nm != 'shapeFailures2' or x.startswith('Kissel'))]
+                    for b in bad[:5]:
+                        viol.append(dict(key='%s:%s  @%s' % (nm, b, kind), got='false', expected='Kissel sub-shell table well-formed / atomic weight present wherever a Kissel table is',
+                                         what='data hypothesis of C08h.ownOK_of_shape (Part 1 -> Part 2) fails on the %s-Kissel tables built from the working tree' % kind))
+                hyp_exec[kind] = [len([x for x in o[len('shape ['):-1].split(', ') if x]) for o in sh2]
+            except core.BuildError:
+                pass
             ov, on, nt = self.oracle(ctx, kl, ck, suf)
             for v in ov: v['key'] = v['key'] if v['key'].startswith('kissel_pe.c') else v['key'] + '  @' + kind
             viol += ov; ntot += on; nontriv += nt
@@ -179,7 +190,7 @@ class C08(Check):
         stats = dict(rule='(a) all 16 constant functions x Z x source shells vs name-derived lists, on the raw tables in the prdata process; (b) shipped configuration: every Kissel entry point fails; '
                           '(c) two regenerated configurations (Kissel table rebuilt from data/kissel by tools/regen_kissel.py; synthetic stress table): 9 shells x 26 line macros x 5 variants x {cm2/g, barn} x 8 energies x Z (every %s) compared with the generated model and with the reference recursion '
                           'over the public primitives (Auger terms selected by parsing macro names); non-trivial = shell/line values reproduced by the oracle' % ('Z' if ctx.tier == 'thorough' else '4th Z, seeded offset'),
-                     distinct_nontrivial=nontriv, kissel_config_lines=len(kl), kissel_configs=per_cfg,
+                     distinct_nontrivial=nontriv, kissel_config_lines=len(kl), kissel_configs=per_cfg, ownOK_hypotheses_failures=hyp_exec,
                      samples=[dict(call=kl[i], impl=ck[i]) for i in (5, len(kl) // 2, len(kl) - 3)])
         return ntot, viol, stats
 
